@@ -57,10 +57,15 @@ func (p *Paragraph) Set(key, value string) {
 
 func (p *Paragraph) WriteTo(out io.Writer) error {
 	for _, key := range p.Order {
-		value := p.Values[key]
-
-		value = strings.Replace(value, "\n", "\n ", -1)
-		value = strings.Replace(value, "\n \n", "\n .\n", -1)
+		/* One trailing newline only ends the last line (the reader adds it
+		 * to every folded value); every other empty line becomes " .". */
+		lines := strings.Split(strings.TrimSuffix(p.Values[key], "\n"), "\n")
+		for i := 1; i < len(lines); i++ {
+			if strings.TrimSpace(lines[i]) == "" {
+				lines[i] = "."
+			}
+		}
+		value := strings.Join(lines, "\n ")
 
 		if _, err := out.Write(
 			[]byte(fmt.Sprintf("%s: %s\n", key, value)),
